@@ -117,6 +117,20 @@ func dumpGeometry(f b6.Feature) string {
 			for _, r := range f.References() {
 				fmt.Fprintf(&b, "%s ", r.Source())
 			}
+			// the cached polyline must agree with the points
+			b.WriteString(safe(func() string {
+				pl := p.Polyline()
+				if pl == nil {
+					return " polyline=nil"
+				}
+				var pb strings.Builder
+				fmt.Fprintf(&pb, " polyline(%d)=", len(*pl))
+				for _, pt := range *pl {
+					pb.WriteString(pointE7(pt))
+					pb.WriteString(" ")
+				}
+				return pb.String()
+			}))
 		} else {
 			fmt.Fprintf(&b, "NOT-PHYSICAL(%T)", f)
 		}
